@@ -43,6 +43,9 @@ pub struct Hist {
     pub rwlock: bool,
     pub nrings: u8,
     pub ops: Vec<Op>,
+    /// one worker per ring (queues_per_thread = [0b01, 0b10, ..]) instead of one worker for all
+    #[serde(default)]
+    pub split: bool,
 }
 
 #[derive(Default, Clone)]
@@ -57,7 +60,10 @@ pub const F5_SIG: &str = "C11/F5-kick-descriptor-replaced-on-started-ring-not-re
 
 fn run_generic<V: VringT<GM> + Clone + Send + Sync + 'static>(ctx: &mut Ctx, h: &Hist) -> Result<(), String> {
     let n = h.nrings as usize;
-    let cfg = BeCfg { num_queues: n, ..Default::default() };
+    let split = h.split && n > 1;
+    let cfg = if split { BeCfg { num_queues: n, queues_per_thread: (0..n).map(|r| 1u64 << r).collect(), ..Default::default() } } else { BeCfg { num_queues: n, ..Default::default() } };
+    // which ring a handler call is for: the worker's id when every ring has its own worker, else the event id
+    let ring_of = |e: &crate::daemon_fx::Event| if split { e.thread_id } else { e.device_event as usize };
     let mut fx: Fx<V> = Fx::new(cfg).map_err(|e| format!("fixture: {e}"))?;
     fx.connect().map_err(|e| format!("fixture: {e}"))?;
     let cl = RawClient::new(fx.peer.as_ref().unwrap().try_clone().unwrap());
@@ -233,7 +239,7 @@ fn run_generic<V: VringT<GM> + Clone + Send + Sync + 'static>(ctx: &mut Ctx, h: 
         let new = &evs[seen..];
         seen = evs.len();
         for (r, ring) in rings.iter_mut().enumerate() {
-            let delta = new.iter().filter(|e| e.device_event as usize == r).count() as u32;
+            let delta = new.iter().filter(|e| ring_of(e) == r && (e.device_event as usize) < e.nvrings).count() as u32;
             let active = ring.started && ring.enabled;
             if active && ring.pending > 0 {
                 if delta == 0 {
@@ -260,16 +266,19 @@ fn run_generic<V: VringT<GM> + Clone + Send + Sync + 'static>(ctx: &mut Ctx, h: 
                 ctx.class("spurious_dispatch_while_active");
             }
         }
-        if let Some(bad) = new.iter().find(|e| e.device_event as usize >= n) {
-            return Err(format!("after {desc}: event handler called with device_event {} (only {n} rings, one listener)", bad.device_event));
+        if let Some(bad) = new.iter().find(|e| e.device_event as usize >= e.nvrings) {
+            return Err(format!("after {desc}: event handler of worker {} called with device_event {} (it serves {} ring(s); no other listener but the harness barrier)", bad.thread_id, bad.device_event, bad.nvrings));
         }
     }
     if nontrivial {
-        ctx.nontrivial(&(h.rwlock, h.nrings, &h.ops));
+        ctx.nontrivial(&(h.rwlock, h.nrings, h.split, &h.ops));
         ctx.class("nontrivial");
     }
     ctx.class(if h.rwlock { "vring_rwlock" } else { "vring_mutex" });
-    ctx.sample(|| json!({"rwlock": h.rwlock, "nrings": h.nrings, "ops": h.ops, "handler_events": fx.be.events().len()}));
+    if split {
+        ctx.class("one_worker_per_ring");
+    }
+    ctx.sample(|| json!({"rwlock": h.rwlock, "nrings": h.nrings, "split": h.split, "ops": h.ops, "handler_events": fx.be.events().len()}));
     drop(cl);
     fx.teardown();
     let panics = crate::engine_panic::take();
@@ -515,7 +524,7 @@ pub fn run(ctx: &mut Ctx) {
     ctx.rule = "control-message histories over {SET_FEATURES with/without PROTOCOL_FEATURES, SET_VRING_KICK new/no descriptor, SET_VRING_CALL, \
                 SET_VRING_ENABLE 0/1, GET_VRING_BASE, RESET_DEVICE, guest kick on the current descriptor} against a real daemon (fresh daemon per \
                 history, both vring kinds); after every step a double barrier on the worker, then per-ring handler invocations are compared \
-                with the reference ring model. Exhaustive over all words up to the stated depth on 1 ring, random on 2 rings. Plus rounds of [kick, deactivate at once, activate] with an uncontrolled schedule, and the same with the worker parked at each of its hold points (woken / kick read / before dispatch) while the deactivation is acknowledged: at least one handler call per round. Non-trivial = a \
+                with the reference ring model. Exhaustive over all words up to the stated depth on 1 ring, random on 2 rings (one worker for both, or one worker per ring). Plus rounds of [kick, deactivate at once, activate] with an uncontrolled schedule, and the same with the worker parked at each of its hold points (woken / kick read / before dispatch) while the deactivation is acknowledged: at least one handler call per round. Non-trivial = a \
                 kick while inactive followed by an activation, a descriptor replacement on a started ring, or disable/stop of an active ring; \
                 distinct op sequences."
         .into();
@@ -547,13 +556,13 @@ pub fn run(ctx: &mut Ctx) {
         .into_iter()
         .filter(|w| w.iter().any(|o| matches!(o, Op::Kick { .. } | Op::KickStale { .. })))
         .enumerate()
-        .map(|(i, ops)| Hist { rwlock: i % 2 == 0, nrings: 1, ops })
+        .map(|(i, ops)| Hist { rwlock: i % 2 == 0, nrings: 1, ops, split: false })
         .collect();
     ctx.extra.insert("exhaustive_words_with_kick".into(), json!(space.len()));
     ctx.enumerate("exhaustive_1ring", space, |ctx, h| run_hist(ctx, h));
 
     let cases = ctx.tier.pick(1200u32, 300_000u32);
-    let strat = (any::<bool>(), proptest::collection::vec(op_strategy(2), 1..=20)).prop_map(|(rwlock, ops)| Hist { rwlock, nrings: 2, ops });
+    let strat = (any::<bool>(), any::<bool>(), proptest::collection::vec(op_strategy(2), 1..=20)).prop_map(|(rwlock, split, ops)| Hist { rwlock, nrings: 2, ops, split });
     ctx.prop_check("random_2rings", cases, strat, |ctx, h| run_hist(ctx, h));
 
     // kicks racing with a deactivation, the schedule chosen: worker parked at each of its three hold points during the deactivation
